@@ -6,10 +6,12 @@ package main
 import (
 	"fmt"
 	"strings"
+
+	"github.com/EliCDavis/polyform/generator/artifact"
 )
 
 type opD struct {
-	K    string `json:"k"`              // u(pdate) | b(ad update) | g(et) | a(rtifact) | v(ersion read) | s(chema)
+	K    string `json:"k"`              // u(pdate) | b(ad update) | g(et) | a(rtifact) | v(ersion read) | s(chema) | c(onsume a retained response slowly; P = which)
 	P    int    `json:"p,omitempty"`    // parameter index (u, b, g)
 	V    int    `json:"v,omitempty"`    // value code (u)
 	Prod int    `json:"prod,omitempty"` // producer index (a)
@@ -30,6 +32,47 @@ type rec struct {
 	Inv  uint64 `json:"inv"`
 	Res  uint64 `json:"res"`
 	Note string `json:"note,omitempty"`
+	// retained response objects (never serialised): the artifact value / the slice ParameterData returned
+	art      artifact.Artifact
+	raw      []byte
+	g        *liveGraph
+	lateOf   *rec  // consume op: the retained response it re-read ...
+	lateResp respD // ... and what it decoded to
+}
+
+// latePair: a retained response read again later
+type latePair struct {
+	Orig respD  `json:"orig"`
+	Late respD  `json:"late"`
+	When string `json:"when"` // window-end | later-window | slow-consumer
+	Op   opD    `json:"op"`
+}
+
+func respEq(a, b respD) bool {
+	if a.K != b.K || a.Ok != b.Ok || a.V != b.V || len(a.Vs) != len(b.Vs) {
+		return false
+	}
+	for i := range a.Vs {
+		if a.Vs[i] != b.Vs[i] {
+			return false
+		}
+	}
+	return true
+}
+
+func coqResp(r respD) string {
+	switch r.K {
+	case "upd":
+		if r.Ok {
+			return "(RUpd true)"
+		}
+		return "(RUpd false)"
+	case "get":
+		return fmt.Sprintf("(RGet %d)", r.V)
+	case "art":
+		return fmt.Sprintf("(RArt %s)", coqNs(r.Vs))
+	}
+	return "RFail"
 }
 
 func isUpdate(o opD) bool { return o.K == "u" || o.K == "b" }
@@ -127,19 +170,6 @@ func coqCall(c *rec) string {
 	case "a":
 		op = fmt.Sprintf("(A %s%%nat)", coqNs(c.F))
 	}
-	switch c.Resp.K {
-	case "upd":
-		if c.Resp.Ok {
-			resp = "(RUpd true)"
-		} else {
-			resp = "(RUpd false)"
-		}
-	case "get":
-		resp = fmt.Sprintf("(RGet %d)", c.Resp.V)
-	case "art":
-		resp = fmt.Sprintf("(RArt %s)", coqNs(c.Resp.Vs))
-	default:
-		resp = "RFail"
-	}
+	resp = coqResp(c.Resp)
 	return fmt.Sprintf("K %d %s %s %d %d", c.T, op, resp, c.Inv, c.Res)
 }
